@@ -55,6 +55,15 @@ CHECKS = {
  "C16": ("exploration", "detour histories ending at a target spec (extra add/delete, replace kind and back, late rename incl. mux inputs, subtree via intermediate element deleted with del_childs=False, lost-and-reapplied phase configs) vs freshly built system; configured-values oracle for params/limits/phases",
          "The edited system and a system freshly built from the target spec are compared on every report per (component, phase) key, on the save() document up to sibling order and on live-graph structure; params()/limits()/phases() must show the configured values.",
          "Trusted: documented semantics of each edit call guarantee the detour history ends at the target; 1e-9 relative for numeric cells.", "4/C16"),
+ "C17": ("fault_enumeration", "snapshot-before / compare-after monitor at the API boundary over interleaved analysis calls (observables, argument objects, module-level mutable defaults) + batt_life fault enumeration (callback / solver failpoint raising at every k-th call)",
+         "After every analysis call of random interleavings on one or two systems all observables, the passed-in argument objects and a fingerprint of every module-level mutable default must be unchanged; for batt_life the probe raises, the deplete callback raises at its k-th call for every k, and a failpoint around System._solve raises at the k-th solver call for every k (Exception and BaseException subclasses), after which params() and save() must show the configured battery.",
+         "Trusted: failpoint wrapper around System._solve installed by the harness; observables serialised exactly.", "4/C17"),
+ "C18": ("exploration", "callback argument-stream monitor (the user's pfunc/dfunc record every call) + independent twin System solved through the public API for the expected current + log reconstruction oracle",
+         "The recorded argument stream of the callbacks is checked call by call (probe first and once, phase durations cycling in declared order or 3.6*cap0/I, current equal to the twin system's battery output current for the previous battery state) and the returned log is reconstructed from the states the model returned.",
+         "Trusted: twin System through solve(phase=..., vtol=1e-5, itol=1e-6); idle batteries without phases are outside the quantifier.", "4/C18"),
+ "C19": ("exploration", "captured pydot.Dot object (hook on pydot.Dot.write) read structurally + re-parse of the written DOT text + sample rendered by the real dot binary to JSON; heat oracle from a separate solve()",
+         "Node set, edge set, clusters, attribute precedence and config immutability are read from the captured graph object for random systems, configs and realistic names (hostile names in the thorough tier, classified as finding F13); heat labels, colour order, extremes and legend are recomputed from a separate solve().",
+         "Trusted: pydot object model and parser, Graphviz dot for the rendered sample; 3 significant digits = 5e-3 relative.", "4/C19"),
  "C20": ("exploration", "runtime post-condition wrapper (exact rational closed form) + metamorphic re-invocation monitor",
          "Every call of trace_res/plane_res made by a randomized workload (12 decades of geometry) is checked by a wrapper against the closed form in Fraction arithmetic and against proportionality/affinity/symmetry relations; held on the executions observed, not a proof.",
          "Trusted: CPython float/Fraction arithmetic; tolerance 1e-12 of the un-cancelled magnitude.", "4/C20"),
